@@ -230,6 +230,40 @@ def run_c13(ctx, quick, rng, wd):
                            f'values, natively chunked): copied X differs', {'big_layer': enc})
         finally:
             shutil.rmtree(d, ignore_errors=True)
+    # two operations in a row on a matrix with more stored entries than rows: CSR -> CSC pivot, then a column subset of
+    # the pivoted file (narrow index types chosen for the first file must not be inherited by counters of the second)
+    from cell_type_mapper.utils.anndata_utils import pivot_csr_h5ad as _pivot, subset_csc_h5ad_columns as _subset
+    for (A_, B_, P_) in ((60, 90, 2), (200, 40, 1), (10, 500, 3)):
+        d = tempfile.mkdtemp(dir=wd)
+        try:
+            nr = np.random.default_rng(ctx.seed + A_)
+            Mb = ((nr.random((A_, B_)) < 0.6) * nr.integers(1, 50, size=(A_, B_))).astype(np.float32)
+            srcb = os.path.join(d, 'src.h5ad')
+            _write(srcb, Mb, 'csr')
+            piv, sub = os.path.join(d, 'pivoted.h5ad'), os.path.join(d, 'subset.h5ad')
+            cols = sorted(nr.choice(B_, size=max(2, B_ // 2), replace=False).tolist())
+            ctx.count({'pivot_then_subset': [A_, B_, P_]}, nontrivial=True)
+            try:
+                with warnings.catch_warnings():
+                    warnings.simplefilter('ignore')
+                    _pivot(src_path=srcb, dst_path=piv, tmp_dir=d, n_processors=P_, max_gb=1)
+                    _subset(src_path=piv, dst_path=sub, chosen_columns=np.array(cols))
+                X, o, v, enc = _dense(sub)
+                col_of = {g: i for i, g in enumerate(v)}
+                want_var = [f'g{j}' for j in cols]
+                ok = sorted(v) == sorted(want_var) and X.shape == (A_, len(cols)) and \
+                    np.array_equal(X[:, [col_of[g] for g in want_var]], Mb[:, cols])
+                if not ok:
+                    nbad += 1
+                    ctx.report('files:subset:wrong-result', f'{A_}x{B_} matrix ({int((Mb != 0).sum())} stored values) pivoted to CSC '
+                               f'and then cut down to {len(cols)} columns: the result differs from the same operations in memory',
+                               {'pivot_then_subset': [A_, B_, P_]})
+            except Exception as e:
+                nbad += 1
+                ctx.report('files:subset:unexpected-exception', f'{A_}x{B_} pivot then subset: {type(e).__name__}: {e}',
+                           {'pivot_then_subset': [A_, B_, P_]})
+        finally:
+            shutil.rmtree(d, ignore_errors=True)
     # stacking sources of the same kind but different width (float32 + float64, int32 + int64), the narrower one first,
     # the wider one holding values the narrower type cannot represent: the stacked matrix is exact, or the call refuses
     from cell_type_mapper.utils.anndata_utils import amalgamate_h5ad
@@ -356,8 +390,56 @@ def _parallel_large_case(args):
         shutil.rmtree(d, ignore_errors=True)
 
 
+def _parallel_huge_case(args):
+    """more than a million stored entries per worker (the join then copies every worker's result in several pieces),
+    with and without a value array, against scipy"""
+    A, B, P, with_data, seed, wd = args
+    import h5py
+    from cell_type_mapper.utils.csc_to_csr_parallel import transpose_sparse_matrix_on_disk_v2
+    from harness import build
+    nr = np.random.default_rng(seed)
+    M = sp.csr_matrix((nr.random((A, B)) < 0.8).astype(np.int32))
+    M.sort_indices()
+    M.data = np.arange(1, M.nnz + 1, dtype=np.int64)
+    d = tempfile.mkdtemp(dir=wd)
+    try:
+        src, dst = os.path.join(d, 'in.h5'), os.path.join(d, 'out.h5')
+        with h5py.File(src, 'w') as f:
+            f.create_dataset('indptr', data=M.indptr.astype(np.int64))
+            f.create_dataset('indices', data=M.indices.astype(np.int64), chunks=(100000,))
+            if with_data:
+                f.create_dataset('data', data=M.data, chunks=(100000,))
+        with build.redirect_fds(os.path.join(d, 'stdio.txt')):
+            transpose_sparse_matrix_on_disk_v2(h5_path=src, indices_tag='indices', indptr_tag='indptr',
+                                               data_tag='data' if with_data else None, indices_max=B, max_gb=1,
+                                               output_path=dst, tmp_dir=d, n_processors=P)
+        T = sp.csr_matrix(M.T)
+        T.sort_indices()
+        with h5py.File(dst, 'r') as f:
+            ok = (np.array_equal(f['indptr'][()], T.indptr) and np.array_equal(f['indices'][()], T.indices)
+                  and (not with_data or np.array_equal(f['data'][()], T.data)))
+            nbad = int((f['indices'][()] != T.indices).sum()) if f['indices'].shape == T.indices.shape else -1
+        return ok, (None if ok else f'{nbad} of {M.nnz} minor indices differ'), int(M.nnz)
+    except Exception as e:
+        return False, f'{type(e).__name__}: {e}', 0
+    finally:
+        shutil.rmtree(d, ignore_errors=True)
+
+
 def run_c13_traces(ctx, quick, rng, wd):
     from harness.traces import _denull
+    hj = [(1500, 2000, 2, False, ctx.seed + 77, wd)] if quick else \
+         [(1500, 2000, 2, False, ctx.seed + 77, wd), (1500, 2000, 2, True, ctx.seed + 78, wd),
+          (1200, 3000, 3, False, ctx.seed + 79, wd)]
+    with cf.ProcessPoolExecutor(max_workers=3) as ex:
+        houts = list(ex.map(_parallel_huge_case, hj))
+    for (A_, B_, P_, wdata, sd, _), (ok, err, nnz) in zip(hj, houts):
+        ctx.count({'parallel_huge': [A_, B_, P_, wdata, sd]}, nontrivial=True)
+        if not ok:
+            ctx.report('transpose:parallel-large:wrong-result', f'parallel transposition of a {A_}x{B_} pattern with {nnz} stored '
+                       f'entries, {P_} workers, value array {wdata}: differs from scipy ({err})',
+                       {'parallel_huge': [A_, B_, P_, wdata, sd]})
+    ctx.part('parallel_huge', cases=len(hj), entries=[o[2] for o in houts])
     # parallel transposition of matrices whose worker ranges start at 0, 9, 18 / 0, 5, 10, 15 / 0, 50, 100 ...
     pj = [(7, B, P, 0.4, ctx.seed * 100 + i, wd)
           for i, (B, P) in enumerate([(25, 3), (20, 4), (150, 3), (12, 3), (101, 4), (30, 3)] if quick else
